@@ -48,6 +48,11 @@ def run(ctx, crate):
     D.rule_rows_newtype(ctx, crate)
     # "nothing at all for the clearing variant": the paint protocol, in particular an empty final frame clears the old rows
     D.rule_draw_order(ctx, crate)
+    # "visibly finished bars keep their final rendering ... in order": only zombies at the head of the *logical* order are
+    # released from the managed region, and the frame is composed through that order
+    from .c02 import rule_head_only_reap, rule_order_source
+    rule_head_only_reap(ctx, crate)
+    rule_order_source(ctx, crate)
 
 
 def status_stores(b):
